@@ -169,6 +169,34 @@ def per_env_start(item):
     return out
 
 
+SEQ_RANGES = [(0, 4), (0, 25), (7, 11), (14, 18), (21, 32), (9, 23), (2, 30)]      # (first day, last day) offsets in a window
+
+
+def sequence_items(tier):
+    """ordered triples (quick) / quadruples (thorough) of ranges inside one six-week window, each sequence in its own
+    process: what a clock emits must not depend on which clocks were built or iterated before it"""
+    import itertools
+    k = 3 if tier == 'quick' else 4
+    return [seq for seq in itertools.product(range(len(SEQ_RANGES)), repeat=k) if len(set(seq)) == k]
+
+
+def per_sequence(seq):
+    d0 = datetime.date(2019, 1, 7)
+    viols, n, nev = [], 0, 0
+    for idx in seq:
+        a, b = SEQ_RANGES[idx]
+        f, ne = check_range(ts(d0 + datetime.timedelta(days=a), (0, 0)), ts(d0 + datetime.timedelta(days=b), (23, 59)), False, False)
+        n += 1
+        nev += ne
+        for v in f:
+            v['case'] = dict(v.get('case', {}), after_ranges=[list(SEQ_RANGES[i]) for i in seq[:seq.index(idx)]])
+        viols += f
+        if viols:
+            break
+    return {'viols': viols[:4], 'execs': n, 'evals': n, 'nontrivial': True, 'outcome': None,
+            'counters': {'ranges': n, 'clock_events_checked': nev, 'construction_sequences': 1}}
+
+
 def future_items(tier):
     """windows after the day the check runs (nothing the clock emits may depend on the wall clock): one straddling
     today, one far ahead"""
@@ -194,6 +222,8 @@ def run(tier, res, is_known):
     product(per_long_start, long_items(tier), res, is_known, label='ranges of 1-3 years', chunk=1)
     if any(not is_known(v) for v in res.violations):
         return
+    product(per_sequence, sequence_items(tier), res, is_known, label='sequences of clocks in one process', chunk=1,
+            sample_every=10 ** 9)
     product(per_env_start, env_items(tier), res, is_known, label='process-local time zone other than UTC', chunk=1)
     product(per_start, future_items(tier), res, is_known, label='windows around and after the day of the run', chunk=2)
     res.transitions = res.extra.get('clock_events_checked', 0)
@@ -207,6 +237,10 @@ def replay(case):
     if case.get('process_tz'):
         with rm.process_tz(case['process_tz']):
             return replay({k: v for k, v in case.items() if k != 'process_tz'})
+    if case.get('after_ranges'):
+        d0 = datetime.date(2019, 1, 7)
+        for a, b in case['after_ranges']:
+            check_range(ts(d0 + datetime.timedelta(days=a), (0, 0)), ts(d0 + datetime.timedelta(days=b), (23, 59)), False, False)
     start, end = pd.Timestamp(case['start']), pd.Timestamp(case['end'])
     if case.get('reversed'):
         return check_reversed(start, end)
